@@ -94,6 +94,16 @@ def main(tier: str) -> int:
         out1 = net.forward(X)                 # own weights
         outW = net.forward(X, W)              # batch of weight vectors
         out1_again = net.forward(X)           # after another call (buffer reuse / history)
+        # the library installs trained weights by attribute assignment on a net (base/_mlp.py, base/_gpnn.py):
+        # a net that has already been evaluated and then carries another row must return that row's result
+        net._weights = W[1].copy()
+        out_reassigned = net.forward(X)
+        net._weights = W[0].copy()
+        if out_reassigned.shape == (1, samples, len(net._outputs)) and outW.shape == (3, samples, len(net._outputs)) \
+                and not np.allclose(out_reassigned[0], outW[1], rtol=1e-12, atol=1e-300, equal_nan=True):
+            chk.fail("forward(X) after the net's weights were replaced still uses the weights of an earlier forward call",
+                     {"net": name, "connections": nconn, "max_abs_diff": float(np.nanmax(np.abs(out_reassigned[0] - outW[1])))},
+                     {"kind": name.split(":")[0], "net": name if name.startswith("hand:") else "generated", "clause": "history"})
         feats = {"kind": name.split(":")[0], "net": name if name.startswith("hand:") else "generated"}
         if out1.shape != (1, samples, len(net._outputs)) or outW.shape != (3, samples, len(net._outputs)):
             chk.fail("forward returns the wrong shape", {**d, "shape": list(outW.shape)}, {**feats, "clause": "shape"})
